@@ -217,7 +217,9 @@ class Poly:
             elif c == -1: parts.append('-' + ms)
             else: parts.append('%s*%s' % (c, ms))
         s = ' + '.join(parts)
-        return s if len(s) < 400 else s[:400] + '...(%d terms)' % len(self.t)
+        if len(s) < 400: return s
+        import zlib
+        return s[:400] + '...(%d terms #%08x)' % (len(self.t), zlib.crc32(s.encode()))
 
 
 def _mono_div(a, b):
